@@ -764,7 +764,8 @@ def _leaf_arrays(x):
 def run(ctx):
     ctx.note('rule', 'cases = (API form | lincomb lattice point) x space x layouts x aliasing pattern x scalar '
                      'classes x seeded values; distinct = distinct (class, shape/layout/scalar-name/repetition) '
-                     'keys; non-trivial = non-empty arrays')
+                     'keys; plus 15 operator forms with a raw (ndarray of the same / another dtype, nested list) operand per space, whose '
+                     'data must stay byte-identical and unshared; non-trivial = non-empty arrays')
     ctx.note('assumptions', ['NumPy long-double arithmetic on copies is the reference',
                              'operand values are finite except for the a=b=0 / set_zero cases',
                              'contract wrappers on LinearSpace.lincomb/multiply/divide are transparent'])
